@@ -1085,6 +1085,7 @@ package serf
 
 //@ func (m *mergeDelegate) validateMemberInfo(n *memberlist.Node) (err error)
 //@   requires wf: m != nil && m.serf != nil && m.serf.config != nil && n != nil
+//@   ensures oversize_metadata_refused [C32]: err == nil ==> len(n.Meta) <= memberlist.MetaMaxSize && (len(n.Addr) == 4 || len(n.Addr) == 16)
 //@ end
 //@ func (m *mergeDelegate) nodeToMember(n *memberlist.Node) (mem *Member, err error)
 //@   requires wf: m != nil && m.serf != nil && m.serf.config != nil && n != nil
@@ -1503,6 +1504,7 @@ package serf
 //@   ensures created [C14]: err == nil ==> s != nil
 //@   ensures cutoffs_restored [C14]: err == nil && s.snapshotter != nil ==>
 //@       s.eventMinTime == s.snapshotter.lastEventClock+1 && s.queryMinTime == s.snapshotter.lastQueryClock+1
+//@   ensures initial_tags_fit [C32]: err == nil ==> logN("tagsenc") > old(logN("tagsenc")) && logAt[int]("tagsenc", old(logN("tagsenc"))) <= memberlist.MetaMaxSize
 //@   ensures snapshot_used_when_configured [C14]: err == nil && old(conf.SnapshotPath) != "" ==> s.snapshotter != nil
 //@ end
 
@@ -1516,6 +1518,32 @@ package serf
 //@       mapHas(ret, "left") && mapAt(ret, "left") == strconv.FormatUint(uint64(len(s.leftMembers)), 10) &&
 //@       mapHas(ret, "members") && mapAt(ret, "members") == strconv.FormatUint(uint64(len(s.members)), 10)
 //@   ensures lists_untouched [C15]: sameSlice(s.failedMembers, old(s.failedMembers)) && sameSlice(s.leftMembers, old(s.leftMembers))
+//@ end
+
+// ---------------------------------------------------------------- tag sets must fit the metadata limit (C32, last sentence)
+
+// the msgpack encoding of a tag set is library code; what matters here is its length, recorded in the ghost log "tagsenc"
+//@ func (s *Serf) encodeTags(tags map[string]string) (raw []byte)
+//@   trusted
+//@   assigns LogN_tagsenc:Int, Log_tagsenc:(Array Int Int)
+//@   ensures logged: logN("tagsenc") == old(logN("tagsenc"))+1 && logAt[int]("tagsenc", old(logN("tagsenc"))) == len(raw) && len(raw) >= 0
+//@ end
+//@ func (m *memberlist.Memberlist) UpdateNode(timeout time.Duration) (err error)
+//@   trusted
+//@   logcalls updatenode
+//@   assigns
+//@ end
+
+//@ func (s *Serf) SetTags(tags map[string]string) (err error)
+//@   requires wf: s != nil && s.config != nil && s.memberlist != nil
+//@   oldlet t0 := logN("tagsenc")
+//@   oldlet u0 := callNOf("updatenode")
+//@   # the tag set is encoded once, and it takes effect (and is announced) only if the encoding fits
+//@   ensures encoded_once [C32]: logN("tagsenc") == t0+1
+//@   ensures accepted_only_if_it_fits [C32]: logAt[int]("tagsenc", t0) <= memberlist.MetaMaxSize ==>
+//@       same(s.config.Tags, tags) && callNOf("updatenode") == u0+1
+//@   ensures oversize_rejected_without_effect [C32]: logAt[int]("tagsenc", t0) > memberlist.MetaMaxSize ==>
+//@       err != nil && same(s.config.Tags, old(s.config.Tags)) && callNOf("updatenode") == u0
 //@ end
 
 // END-OF-CONTRACTS
